@@ -148,6 +148,13 @@ class C05(BridgeProp):
     def owns(self, clause):
         return clause.startswith("C05:") or clause == "C07:exactly-one-callback-per-valid-broadcast"
 
+    def mc_runs(self, ctx):
+        return [{"module": "MC_Datagram"}, {"module": "Switcher", "cfg": "Switcher.cfg"}]
+
+    def replay_phase(self, ctx):
+        from .client import e2e_phase
+        return e2e_phase(ctx, lambda c: c.startswith("C05:"))
+
 
 def known_codes():
     return [bytes.fromhex(c) for c in CODES.values()]
